@@ -64,6 +64,8 @@ pub struct Plan {
     pub add_learners: u32,
     /// scripted fault schedule (directed scenarios) instead of the random fault loop
     pub script: Vec<Step>,
+    /// percentage of granted votes followed by an immediate crash of the voter
+    pub vote_crash_pct: u64,
     /// explicit key names (watch family: '/'-structured keys); empty = k0, k1, ...
     pub key_names: Vec<Vec<u8>>,
 }
@@ -99,7 +101,7 @@ impl Plan {
             "voters": self.params.voters, "duration_ms": self.duration_ms, "clients": self.clients, "keys": self.keys,
             "election_ms": [self.params.election_min, self.params.election_max], "heartbeat_ms": self.params.heartbeat_ms,
             "lease_ms": self.params.lease_ms, "cap": self.params.per_request_cap, "snapshot_threshold": self.params.snapshot_threshold,
-            "scripted": !self.script.is_empty(), "tier_n": self.allow_tier_n, "add_learners": self.add_learners, "full_restart": self.full_restart,
+            "scripted": !self.script.is_empty(), "vote_crash_pct": self.vote_crash_pct, "tier_n": self.allow_tier_n, "add_learners": self.add_learners, "full_restart": self.full_restart,
         })
     }
 }
@@ -141,6 +143,7 @@ pub fn base_plan(family: &str, seed: u64) -> Plan {
         add_learners: 0,
         script: Vec::new(),
         key_names: Vec::new(),
+        vote_crash_pct: 0,
     }
 }
 
@@ -165,6 +168,9 @@ pub fn plan_for(family: &str, seed: u64) -> Plan {
             if pl.allow_tier_n {
                 pl.w_tier_n = 10;
             }
+            // C02 window: crash a voter the moment its grant has left it, restart it while the
+            // election it voted in is still being contested
+            pl.vote_crash_pct = *r.pick(&[0, 5, 15, 30]);
         }
         // replication heavy: small caps, leader churn, stale tails, snapshots
         "replication" => {
@@ -460,12 +466,13 @@ pub fn checkpoint<K: EngineKind>(c: &Cluster<K>) {
     }
 }
 
-async fn sleep_with_checkpoints<K: EngineKind>(c: &Cluster<K>, ms: u64, hint: &Arc<AtomicU64>) {
+async fn sleep_with_checkpoints<K: EngineKind>(c: &mut Cluster<K>, ms: u64, hint: &Arc<AtomicU64>, cl: &ClientHandle) {
     let mut left = ms;
     while left > 0 {
         let step = left.min(40);
         c.sleep(step).await;
         left -= step;
+        c.service_vote_crashes(cl).await;
         checkpoint(c);
         hint.store(c.leader().unwrap_or(0) as u64, Ordering::Relaxed);
     }
@@ -575,6 +582,7 @@ pub async fn run_chaos<K: EngineKind>(plan: &Plan, scratch: &Path) -> RunOutcome
         }
     }
     let hint = Arc::new(AtomicU64::new(0));
+    c.net.inner.lock().unwrap().vote_crash_pct = plan.vote_crash_pct;
     if c.wait_leader(8000).await.is_none() {
         out.extra.insert("no_initial_leader".into(), json!(true));
     }
@@ -617,7 +625,7 @@ pub async fn run_chaos<K: EngineKind>(plan: &Plan, scratch: &Path) -> RunOutcome
         let mut marks: [Option<u32>; 4] = [None; 4];
         for step in &plan.script {
             match step {
-                Step::Sleep(ms) => sleep_with_checkpoints(&c, *ms, &hint).await,
+                Step::Sleep(ms) => sleep_with_checkpoints(&mut c, *ms, &hint, &cl).await,
                 Step::MarkLeader(m) => {
                     marks[*m] = c.wait_leader(3000).await;
                 }
@@ -629,7 +637,7 @@ pub async fn run_chaos<K: EngineKind>(plan: &Plan, scratch: &Path) -> RunOutcome
                             marks[*m] = l;
                             break;
                         }
-                        sleep_with_checkpoints(&c, 20, &hint).await;
+                        sleep_with_checkpoints(&mut c, 20, &hint, &cl).await;
                     }
                 }
                 Step::MarkThird(a, b, m) => {
@@ -832,7 +840,7 @@ pub async fn run_chaos<K: EngineKind>(plan: &Plan, scratch: &Path) -> RunOutcome
             _ => {}
         }
         let ph = r.range(plan.phase_ms.0, plan.phase_ms.1);
-        sleep_with_checkpoints(&c, ph, &hint).await;
+        sleep_with_checkpoints(&mut c, ph, &hint, &cl).await;
     }
 
     // ---- optional full graceful restart ----
@@ -844,7 +852,7 @@ pub async fn run_chaos<K: EngineKind>(plan: &Plan, scratch: &Path) -> RunOutcome
             let _ = c.start(d).await;
         }
         c.refresh(&cl);
-        sleep_with_checkpoints(&c, 1500, &hint).await;
+        sleep_with_checkpoints(&mut c, 1500, &hint, &cl).await;
         let ids = c.live_ids();
         for id in &ids {
             c.stop(*id).await;
@@ -861,6 +869,7 @@ pub async fn run_chaos<K: EngineKind>(plan: &Plan, scratch: &Path) -> RunOutcome
 
     // ---- heal + quiet period ----
     c.rec.push(c.now(), Ev::Phase { name: "heal+quiet".into() });
+    c.net.inner.lock().unwrap().vote_crash_pct = 0;
     heal(&c.net);
     c.net.set_faults(|f| {
         f.delay_min = 1;
@@ -878,19 +887,19 @@ pub async fn run_chaos<K: EngineKind>(plan: &Plan, scratch: &Path) -> RunOutcome
     }
     c.refresh(&cl);
     // let clients continue for a little while on the healed cluster, then stop them
-    sleep_with_checkpoints(&c, plan.quiet_ms / 2, &hint).await;
+    sleep_with_checkpoints(&mut c, plan.quiet_ms / 2, &hint, &cl).await;
     if plan.family == "watch" {
         // a few watchers on the healed cluster as well
         for _ in 0..3 {
             spawn_watcher(&c, plan, &mut r, &mut next_wid, &watch_stop, &mut watch_tasks);
         }
-        sleep_with_checkpoints(&c, 300, &hint).await;
+        sleep_with_checkpoints(&mut c, 300, &hint, &cl).await;
     }
     stop.store(true, Ordering::Relaxed);
     for t in client_tasks {
         let _ = tokio::time::timeout(Duration::from_millis(plan.client_timeout_ms + 500), t).await;
     }
-    sleep_with_checkpoints(&c, plan.quiet_ms / 2, &hint).await;
+    sleep_with_checkpoints(&mut c, plan.quiet_ms / 2, &hint, &cl).await;
 
     // ---- final probes ----
     let leader = c.wait_leader(2000).await;
@@ -915,7 +924,18 @@ pub async fn run_chaos<K: EngineKind>(plan: &Plan, scratch: &Path) -> RunOutcome
             match leader {
                 None => {
                     let roles: Vec<_> = c.live_ids().iter().map(|i| json!([i, c.role_of(*i).map(|r| (r.role, r.term))])).collect();
-                    c.rec.online().report(c.now(), prop, "no-leader-after-heal-and-quiet-period", json!({"quiet_ms": plan.quiet_ms, "live": c.live_ids(), "roles": roles, "restart_failed": restart_failed}));
+                    // mechanism, from the vote traffic of the last 5 virtual seconds: vote rounds
+                    // that follow each other without a gap (a lost round does not re-arm the
+                    // election timer) keep every voter inside `broadcast_vote_requests`, where it
+                    // does not answer the other candidates: most requests time out unanswered
+                    let (reqs, answered, granted, rounds) = c.rec.online().vote_activity_since(c.now().saturating_sub(5000));
+                    let sig = if rounds >= 4 && reqs >= 8 && answered * 2 < reqs {
+                        "no-leader-after-heal-and-quiet-period:vote-requests-unanswered-by-voters-busy-in-their-own-vote-rounds"
+                    } else {
+                        "no-leader-after-heal-and-quiet-period"
+                    };
+                    let roles = json!({"roles": roles, "last_5s": {"vote_requests": reqs, "answered": answered, "granted": granted, "rounds_ended": rounds}});
+                    c.rec.online().report(c.now(), prop, sig, json!({"quiet_ms": plan.quiet_ms, "live": c.live_ids(), "roles": roles, "restart_failed": restart_failed}));
                 }
                 Some(l) => {
                     let (_, res) = cl
